@@ -1634,7 +1634,7 @@ func init() {
 		Shards: func(tier string) []mc.Shard {
 			return shardsOfSketchSpecs(corpusSpecs("C06", tier, 3, 4, true, checkC06))
 		},
-		ShardBudget: budget(70*time.Second, 12*time.Minute),
+		ShardBudget: budget(240*time.Second, 12*time.Minute),
 	})
 	mc.Register(&mc.Property{
 		ID: "C07", Level: "model_checking",
@@ -1645,7 +1645,7 @@ func init() {
 			sh := shardsOfSketchSpecs(corpusSpecs("C07", tier, 3, 4, true, checkC07, skAddW(0, 3.3, 0.1), skAddW(0, -2.2, 1.0/3)))
 			return append(sh, grammarShards(tier)...)
 		},
-		ShardBudget: budget(70*time.Second, 12*time.Minute),
+		ShardBudget: budget(240*time.Second, 12*time.Minute),
 	})
 	mc.Register(&mc.Property{
 		ID: "C08", Level: "fault_enumeration",
@@ -1658,7 +1658,7 @@ func init() {
 			sh := shardsOfSketchSpecs(corpusSpecs("C08", tier, 3, 4, true, checkC08, skAddW(0, 3.3, 0.1), skAddW(0, -2.2, 1.0/3)))
 			return append(append(sh, mismatchShard(tier)), grammarCutShards()...)
 		},
-		ShardBudget: budget(70*time.Second, 12*time.Minute),
+		ShardBudget: budget(240*time.Second, 12*time.Minute),
 	})
 	mc.Register(&mc.Property{
 		ID: "C09", Level: "model_checking",
@@ -1668,7 +1668,7 @@ func init() {
 			sh := shardsOfSketchSpecs(corpusSpecs("C09", tier, 3, 4, false, checkC09))
 			return append(sh, handBuiltProtoShard())
 		},
-		ShardBudget: budget(70*time.Second, 12*time.Minute),
+		ShardBudget: budget(240*time.Second, 12*time.Minute),
 	})
 	_ = math.Inf
 }
